@@ -5,6 +5,12 @@
 (*                                                                             *)
 (* One execution = one process (the recorder is a process-wide singleton):     *)
 (*   {"e":"Start","threads":n}                                                 *)
+(*   {"e":"Thread","t":t,"born":b,"died":d}   lifetime of thread t on the      *)
+(*        logical clock of the driver's main thread, which performs every      *)
+(*        creation and every join: b is taken just before the std::thread is   *)
+(*        constructed, d just after join() returned (0: alive at saveLog).     *)
+(*        "t had ended before u was created" (the relation P of the contract,  *)
+(*        TraceLog's prec) is  died[t] > 0 /\ died[t] < born[u]                *)
 (*   {"e":"Rec","t":t,"k":k,"name":..,"cat":..,"val":..}   every call thread t *)
 (*        made (beginEvent / endEvent / setMarker / setCounter), as the thread *)
 (*        itself logged it, in its program order; the lines of one thread are  *)
@@ -23,15 +29,19 @@
 (* the state: rec[t] of TraceLog is represented by (start[t], cnt[t]), a       *)
 (* window into the constant trace, and its nesting depth rdepth[t].  The Rec   *)
 (* steps are TraceLog's Begin / End / Marker / Counter under that              *)
-(* representation (End needs an open begin, names are non-empty); the Log      *)
+(* representation (End needs an open begin, names are non-empty, the thread    *)
+(* was created); the Thread steps are TraceLog's ThreadStart / ThreadExit      *)
+(* with prec represented by the two stamps; the Log                            *)
 (* steps run the incremental matcher MStep of TraceLogContract (TraceLogMC     *)
 (* shows it decides exactly Accepts) and, redundantly but explicitly, the      *)
-(* begin/end nesting of every tid; End requires MDone: every recorded event    *)
-(* of every thread was found.                                                  *)
+(* begin/end nesting of every tid (a tid shared by threads that never          *)
+(* coexisted holds their sequences one after the other, each nested in itself, *)
+(* so the tid as a whole never closes more than it opened); End requires       *)
+(* MDone: every recorded event of every thread was found.                      *)
 EXTENDS TraceLogContract, Json, IOUtils, TLCExt
 
-VARIABLES l, phase, nthreads, start, cnt, cur, rdepth, cn, ms, ldepth
-tvars == <<l, phase, nthreads, start, cnt, cur, rdepth, cn, ms, ldepth>>
+VARIABLES l, phase, nthreads, born, died, start, cnt, cur, rdepth, cn, ms, ldepth
+tvars == <<l, phase, nthreads, born, died, start, cnt, cur, rdepth, cn, ms, ldepth>>
 
 TraceLines == ndJsonDeserialize(IOEnv.TRACE)
 N == Len(TraceLines)
@@ -39,9 +49,9 @@ Line == TraceLines[l]
 E == Line.e
 
 Zero == [t \in Threads |-> 0]
-Fresh == /\ phase' = "idle" /\ nthreads' = 0 /\ start' = Zero /\ cnt' = Zero /\ cur' = 0 /\ rdepth' = Zero
+Fresh == /\ phase' = "idle" /\ nthreads' = 0 /\ born' = Zero /\ died' = Zero /\ start' = Zero /\ cnt' = Zero /\ cur' = 0 /\ rdepth' = Zero
          /\ cn' = {} /\ ms' = MInit /\ ldepth' = <<>>
-TInit == /\ l = 1 /\ phase = "idle" /\ nthreads = 0 /\ start = Zero /\ cnt = Zero /\ cur = 0 /\ rdepth = Zero
+TInit == /\ l = 1 /\ phase = "idle" /\ nthreads = 0 /\ born = Zero /\ died = Zero /\ start = Zero /\ cnt = Zero /\ cur = 0 /\ rdepth = Zero
          /\ cn = {} /\ ms = MInit /\ ldepth = <<>>
 
 EvAt(i) == LET L == TraceLines[i] IN Ev(L.k, L.name, L.cat, L.val)
@@ -50,12 +60,24 @@ Start ==
   /\ E = "Start" /\ phase = "idle"
   /\ Line.threads \in 0..Cardinality(Threads)
   /\ phase' = "rec" /\ nthreads' = Line.threads
-  /\ UNCHANGED <<start, cnt, cur, rdepth, cn, ms, ldepth>>
+  /\ UNCHANGED <<born, died, start, cnt, cur, rdepth, cn, ms, ldepth>>
+
+\* TraceLog!ThreadStart / ThreadExit: the lifetime of one thread (before any of its events)
+Prec(t, u) == died[t] > 0 /\ died[t] < born[u]
+Thread ==
+  /\ E = "Thread" /\ phase = "rec"
+  /\ Line.t \in 1..nthreads /\ born[Line.t] = 0 /\ cnt[Line.t] = 0
+  /\ Line.born > 0 /\ (Line.died = 0 \/ Line.died > Line.born)
+  /\ \A u \in Threads : born[u] > 0 => (born[u] # Line.born /\ (Line.died > 0 => died[u] # Line.died))   \* one clock
+  /\ born' = [born EXCEPT ![Line.t] = Line.born]
+  /\ died' = [died EXCEPT ![Line.t] = Line.died]
+  /\ UNCHANGED <<phase, nthreads, start, cnt, cur, rdepth, cn, ms, ldepth>>
 
 \* TraceLog!Begin / End / Marker / Counter on the windowed representation of rec
 Rec ==
   /\ E = "Rec" /\ phase = "rec"
   /\ Line.t \in 1..nthreads /\ Line.k \in Kinds
+  /\ born[Line.t] > 0                                         \* only a created thread records
   /\ Line.t = cur \/ cnt[Line.t] = 0                          \* one thread's lines are contiguous (else: rejected, not trusted)
   /\ IF Line.k = "E" THEN rdepth[Line.t] > 0 ELSE Line.name # ""
   /\ Line.val >= 0
@@ -64,33 +86,32 @@ Rec ==
   /\ cnt' = [cnt EXCEPT ![Line.t] = @ + 1]
   /\ rdepth' = [rdepth EXCEPT ![Line.t] = @ + (IF Line.k = "B" THEN 1 ELSE IF Line.k = "E" THEN -1 ELSE 0)]
   /\ cn' = IF Line.k = "C" THEN cn \cup {Line.name} ELSE cn
-  /\ UNCHANGED <<phase, nthreads, ms, ldepth>>
+  /\ UNCHANGED <<phase, nthreads, born, died, ms, ldepth>>
 
 Save ==
   /\ E = "Save" /\ phase = "rec"
   /\ phase' = "log" /\ ms' = MInit /\ ldepth' = <<>>
-  /\ UNCHANGED <<nthreads, start, cnt, cur, rdepth, cn>>
+  /\ UNCHANGED <<nthreads, born, died, start, cnt, cur, rdepth, cn>>
 
 DepthOfTid(g) == IF g \in DOMAIN ldepth THEN ldepth[g] ELSE 0
 
 Log ==
   /\ E = "Log" /\ phase = "log"
   /\ LET e == [tid |-> Line.tid, ph |-> Line.ph, name |-> Line.name, cat |-> Line.cat, val |-> Line.val] IN
-       /\ \E s \in MStep(ms, e, cn, LAMBDA t : cnt[t], LAMBDA t, i : EvAt(start[t] + i - 1)) : ms' = s
+       /\ \E s \in MStep(ms, e, cn, LAMBDA t : cnt[t], LAMBDA t, i : EvAt(start[t] + i - 1), Prec) : ms' = s
        /\ IF Relevant(e, cn) /\ e.ph \in {"B", "E"}
             THEN /\ e.ph = "E" => DepthOfTid(e.tid) > 0                                   \* properly nested in its tid
                  /\ ldepth' = (e.tid :> (DepthOfTid(e.tid) + (IF e.ph = "B" THEN 1 ELSE -1))) @@ ldepth
             ELSE ldepth' = ldepth
-  /\ UNCHANGED <<phase, nthreads, start, cnt, cur, rdepth, cn>>
+  /\ UNCHANGED <<phase, nthreads, born, died, start, cnt, cur, rdepth, cn>>
 
 End ==
   /\ E = "End" /\ phase = "log"
   /\ MDone(ms, LAMBDA t : cnt[t])                               \* every recorded event of every thread is in the log
-  /\ \A g \in DOMAIN ldepth : \E t \in Threads : ms.map[g] = t /\ ldepth[g] = rdepth[t]   \* what is still open in the log is what was open
   /\ phase' = "done"
-  /\ UNCHANGED <<nthreads, start, cnt, cur, rdepth, cn, ms, ldepth>>
+  /\ UNCHANGED <<nthreads, born, died, start, cnt, cur, rdepth, cn, ms, ldepth>>
 
-Step  == l <= N /\ E # "Reset" /\ (Start \/ Rec \/ Save \/ Log \/ End) /\ l' = l + 1
+Step  == l <= N /\ E # "Reset" /\ (Start \/ Thread \/ Rec \/ Save \/ Log \/ End) /\ l' = l + 1
 Reset == l <= N /\ E = "Reset" /\ Fresh /\ l' = l + 1
 TNext == Step \/ Reset
 TSpec == TInit /\ [][TNext]_tvars
